@@ -7,11 +7,7 @@ from dataclasses import dataclass
 from typing import Optional
 
 from scrapli.decorators import timeout_wrapper
-from scrapli.exceptions import (
-    ScrapliAuthenticationFailed,
-    ScrapliConnectionError,
-    ScrapliConnectionNotOpened,
-)
+from scrapli.exceptions import ScrapliConnectionError, ScrapliConnectionNotOpened
 from scrapli.transport.base import AsyncTransport, BasePluginTransportArgs, BaseTransportArgs
 from scrapli.transport.base.telnet_common import DO, DONT, IAC, NULL, SUPPRESS_GO_AHEAD, WILL, WONT
 
@@ -165,17 +161,17 @@ class AsynctelnetTransport(AsyncTransport):
                     f"Failed to open telnet session to host {self._base_transport_args.host}, "
                     "connection refused"
                 )
-            raise ScrapliConnectionError(msg) from exc
+            raise ScrapliConnectionNotOpened(msg) from exc
         except asyncio.TimeoutError as exc:
             msg = "timed out opening connection to device"
             self.logger.critical(msg)
-            raise ScrapliAuthenticationFailed(msg) from exc
+            raise ScrapliConnectionNotOpened(msg) from exc
         except (OSError, socket.gaierror) as exc:
             msg = (
                 f"Failed to open telnet session to host {self._base_transport_args.host} -- "
                 "do you have a bad host/port?"
             )
-            raise ScrapliConnectionError(msg) from exc
+            raise ScrapliConnectionNotOpened(msg) from exc
 
         self._post_open_closing_log(closing=False)
 
